@@ -73,14 +73,15 @@ Fixpoint render_args (args : list str) (chs : list argch) : str :=
   end.
 
 (* an unquoted argument: non-empty, every character writable, the written text neither begins with
-   a double quote or white space nor ends with white space, and, when it is the first argument of a line
+   a double quote or the plain space (any other blank at the start of the token is data: only the plain
+   space separates tokens) nor ends with white space (the line is trimmed), and, when it is the first argument of a line
    without output variable, does not begin with '=' *)
 Definition valid_arg (first_noout : bool) (a : str) (ch : argch) : bool :=
   if a_quoted ch then valid_q a (a_esc ch)
   else valid_u a (a_esc ch) &&
        match emit_str a (a_esc ch) with
        | [] => false
-       | c :: _ => negb (c =? c_quote) && negb (is_ws c) && negb (first_noout && (c =? c_eq))
+       | c :: _ => negb (c =? c_quote) && negb (c =? c_sp) && negb (first_noout && (c =? c_eq))
        end &&
        negb (ends_ws (emit_str a (a_esc ch))).
 
